@@ -221,4 +221,25 @@ func VerifC12Plan() {
 	}
 	sym.Assert(inReq == sym.Or(inRead, inLinear), "cover-exact")
 	sym.Assert(!sym.And(inRead, inLinear), "cover-no-overlap")
+
+	// the segmenter the scheduler draws its jobs from hands out a segment for every
+	// block that has to be back-filled (stores to build, outputs to write)
+	if p.RequiresParallelProcessing() {
+		inBack := false
+		if p.BuildStores != nil {
+			inBack = sym.Or(inBack, sym.And(x >= p.BuildStores.StartBlock, x < p.BuildStores.ExclusiveEndBlock))
+		}
+		if p.WriteExecOut != nil {
+			inBack = sym.Or(inBack, sym.And(x >= p.WriteExecOut.StartBlock, x < p.WriteExecOut.ExclusiveEndBlock))
+		}
+		if inBack {
+			sym.Reach("backfilled-block")
+			bs := p.BackprocessSegmenter()
+			i := bs.IndexForStartBlock(x)
+			sym.Assert(sym.And(i >= bs.FirstIndex(), i <= bs.LastIndex()), "job-segments-cover-every-backfilled-block")
+			if r := bs.Range(i); r != nil {
+				sym.Assert(sym.And(x >= r.StartBlock, x < r.ExclusiveEndBlock), "job-segment-contains-the-backfilled-block")
+			}
+		}
+	}
 }
